@@ -40,7 +40,7 @@ pub fn load() -> &'static Vec<Finding> {
             Ok(t) => t,
             Err(_) => return vec![],
         };
-        let j: J = match serde_json::from_str(&txt) {
+        let j: J = match crate::jser::parse_json(txt.as_bytes()) {
             Ok(j) => j,
             Err(e) => {
                 eprintln!("known_findings.json does not parse: {e}");
